@@ -618,11 +618,16 @@ submit_cipher_burst_and_check(IMB_MGR *state, IMB_JOB *jobs, const uint32_t n_jo
         /* reset error status */
         imb_set_errno(state, 0);
 
-        if (run_check)
+        if (run_check) {
                 if (jobs == NULL) {
                         imb_set_errno(state, IMB_ERR_NULL_BURST);
                         return 0;
                 }
+                if (dir != IMB_DIR_ENCRYPT && dir != IMB_DIR_DECRYPT) {
+                        imb_set_errno(state, IMB_ERR_JOB_CIPH_DIR);
+                        return 0;
+                }
+        }
 
         switch (cipher) {
         case IMB_CIPHER_CBC:
